@@ -14,7 +14,7 @@ for d in seeded/*/; do
   s=$(basename "$d")
   [ -f "$d/patch.diff" ] || continue
   prop=$(echo "$s" | sed -E 's/^(C[0-9]+).*/\1/')
-  git -C /repo apply "$d/patch.diff" || { echo "patch $s does not apply"; continue; }
+  git -C /repo apply "/verif/$d/patch.diff" || { echo "patch $s does not apply"; continue; }
   if [ "$MODE" = ALL ]; then ids="$ALLIDS"; else ids="$prop"; fi
   caught=""; missed=""; incon=""
   for id in $ids; do
